@@ -20,6 +20,11 @@ def validate_encoded(string):
       "NameOrient[,NameOrient...])")
 
 def validate_decoded(iterable):
+  if not isinstance(iterable, list):
+    raise gfapy.TypeError(
+      "the class {} is incompatible with the datatype\n"
+      .format(iterable.__class__.__name__)+
+      "(accepted classes: str, list)")
   for elem in iterable:
     elem = gfapy.OrientedLine(elem)
     elem.validate()
